@@ -45,12 +45,25 @@ def make_world(g, tag):
     only_masked = all(p in masked for p in changed)
     if kind == 'yaml':
         ta, tb = yaml_of(a), yaml_of(b)
+        if r.random() < 0.4:
+            # a second document of the stream; a difference there is never masked
+            other = r.choice(['same', 'same', 'changed'])
+            ta += '---\nsecond: same\n'
+            tb += '---\nsecond: %s\n' % other
+            if other == 'changed':
+                only_masked = False
         mt = docs.any_matcher(['$.' + p for p in masked], r.choice([None, '"MASK"']))
     else:
         ta, tb = g.json_text(a), g.json_text(b)
         # mix the three matcher kinds over the masked paths
         mts = []
-        for p in masked:
+        if r.random() < 0.3:
+            # one matcher, several paths, a missing one first, missing paths ignored
+            mts.append(docs.any_matcher(['not.there'] + masked, r.choice([None, '"MASK"']), False))
+            masked_iter = []
+        else:
+            masked_iter = masked
+        for p in masked_iter:
             k = r.random()
             if k < 0.6:
                 mts.append(docs.any_matcher([p], r.choice([None, '"é"', '"x\\"y"', '"MASK"', 'null'])))
